@@ -46,6 +46,10 @@ def run_one(patch, props, verify_tests, all_props):
         for prop in todo:
             c = subprocess.run([os.path.join(VERIF, "check"), prop, "--repo", work, "--no-evidence"],
                                capture_output=True, text=True)
+            if c.returncode == 2 and "internal error" in c.stdout:
+                sys.stderr.write("retrying %s on %s after: %s\n" % (prop, name, c.stderr[-600:]))
+                c = subprocess.run([os.path.join(VERIF, "check"), prop, "--repo", work, "--no-evidence"],
+                                   capture_output=True, text=True)
             viol = [l.strip() for l in c.stdout.splitlines() if l.strip().startswith("violation:")]
             rec = {"exit": c.returncode, "violations": [v[len("violation: "):] for v in viol]}
             if c.returncode == 2:
